@@ -4,8 +4,9 @@
 import InvProxy.Model.Sessions
 import InvProxy.Model.Dedup
 import InvProxy.Proofs.Sessions
+import InvProxy.Proofs.SessionWriter
 namespace InvProxy.C10
-open InvProxy InvProxy.Sessions InvProxy.Gen
+open InvProxy InvProxy.Sessions InvProxy.Gen InvProxy.SessionWriter
 
 variable {J U SC C : Type}
 
@@ -43,21 +44,46 @@ theorem only_session_cookie (ops : JarOps J U SC C) (c : Cache J) (s fresh : Sid
   rfl
 
 /-- … at the level of the response header the writer edits (regenerated slice of
-    `sessionResponseWriter.WriteHeader`): whatever `Set-Cookie` values the backend put there —
-    parseable by Go's cookie parser or not, any number of them — afterwards the field holds
-    exactly the session cookie if the request carried none, and nothing otherwise. -/
-theorem set_cookie_header_exact (noSession : Bool) (sc : Bytes) (parsed : Nat) (h : Hdr) :
-    Hdr.Values (sessions_writeHeaderEdits noSession sc parsed h) [83,101,116,45,67,111,111,107,105,101] =
-      if noSession then [sc] else [] := by
-  cases noSession <;>
-    simp [sessions_writeHeaderEdits, Id.run, pure, Hdr.Values, Hdr.Del, Hdr.Add, Hdr.values_del_self]
+    `sessionResponseWriter.WriteHeader`, early exits included): whatever `Set-Cookie` values the
+    backend put there — parseable by Go's cookie parser or not, any number of them — afterwards
+    the field holds nothing on an interim response, and on the final one exactly the session
+    cookie if the request carried none, and nothing otherwise. -/
+theorem set_cookie_header_exact (status : Int) (noSession : Bool) (sc : Bytes) (parsed : Nat) (h : Hdr) :
+    Hdr.Values (sessions_writeHeaderEdits false status noSession sc parsed h) [83,101,116,45,67,111,111,107,105,101] =
+      if isInterim status then [] else if noSession then [sc] else [] := by
+  unfold isInterim
+  by_cases h1 : status ≥ 100 <;> by_cases h2 : status ≤ 199 <;> by_cases h3 : status = 101 <;> cases noSession <;>
+    by_cases h4 : parsed = 0 <;>
+    simp [sessions_writeHeaderEdits, Id.run, pure, Hdr.Values, Hdr.Del, Hdr.Add, Hdr.values_del_self, h1, h2, h3, h4]
 
-/-- every other response header field is left alone -/
-theorem other_response_headers_kept (noSession : Bool) (sc : Bytes) (parsed : Nat) (h : Hdr) (k : Bytes)
+/-- every other response header field is left alone, on every path through the function -/
+theorem other_response_headers_kept (wrote : Bool) (status : Int) (noSession : Bool) (sc : Bytes) (parsed : Nat) (h : Hdr) (k : Bytes)
     (hk : k ≠ Go.canon [83,101,116,45,67,111,111,107,105,101]) :
-    Hdr.values (sessions_writeHeaderEdits noSession sc parsed h) k = Hdr.values h k := by
-  cases noSession <;>
-    simp [sessions_writeHeaderEdits, Id.run, pure, Hdr.Del, Hdr.Add, Hdr.values_del_ne _ _ _ hk, Hdr.values_add_ne _ _ _ _ hk]
+    Hdr.values (sessions_writeHeaderEdits wrote status noSession sc parsed h) k = Hdr.values h k := by
+  by_cases h1 : status ≥ 100 <;> by_cases h2 : status ≤ 199 <;> by_cases h3 : status = 101 <;> cases noSession <;> cases wrote <;>
+    by_cases h4 : parsed = 0 <;>
+    simp [sessions_writeHeaderEdits, Id.run, pure, Hdr.Del, Hdr.Add, Hdr.values_del_ne _ _ _ hk, Hdr.values_add_ne _ _ _ _ hk, h1, h2, h3, h4]
+
+/-- non-vacuity: 103 is interim; 101 (websocket upgrade through the session handler) and 200 are final -/
+example : isInterim 103 = true ∧ isInterim 101 = false ∧ isInterim 200 = false ∧ isInterim 99 = false := by decide
+
+theorem marks_written_after_interim_exit : sessions_marksWrittenAfterInterimExit = true := by decide
+
+/-- Any number of interim responses does not consume the final header: after interim calls
+    `pre` and a final call `(f, h)` (and whatever calls follow), the wrapped writer has received
+    every interim call, then the final status `f` with exactly the session cookie or no cookie —
+    and nothing after it. -/
+theorem interim_then_final (noSession : Bool) (sc : Bytes) (parsed : Nat) (pre : List (Int × Hdr)) (f : Int) (h : Hdr)
+    (post : List (Int × Hdr))
+    (hpre : ∀ p ∈ pre, isInterim p.1 = true) (hf : isInterim f = false) :
+    let w := (Writer.mk false []).calls noSession sc parsed (pre ++ (f, h) :: post)
+    w.wrote = true ∧ w.sent.map (·.1) = pre.map (·.1) ++ [f] ∧
+    (∀ p ∈ w.sent, Hdr.Values p.2 [83,101,116,45,67,111,111,107,105,101] =
+        if isInterim p.1 then [] else if noSession then [sc] else []) := by
+  intro w
+  have hP : ∀ st hd, Hdr.Values (sessions_writeHeaderEdits false st noSession sc parsed hd) [83,101,116,45,67,111,111,107,105,101] =
+      if isInterim st then [] else if noSession then [sc] else [] := fun st hd => set_cookie_header_exact st noSession sc parsed hd
+  exact calls_interim_then_final noSession sc parsed _ hP pre f h post hpre hf
 
 /-- attributes of that cookie (regenerated from the literal in sessions.go): Path=/,
     HttpOnly, Secure unless the test override is set -/
